@@ -1673,7 +1673,8 @@ func init() {
 			order[i] = i
 		}
 		sort.SliceStable(order, func(a, b int) bool { return cases[order[a]].cost() > cases[order[b]].cost() })
-		par := 8
+		// a case spends nearly all of its 5-16 s waiting for the binary's 5 s ledger period, not computing
+		par := 12
 		if v, err := strconv.Atoi(os.Getenv("VERIF_APP_PARALLEL")); err == nil && v > 0 {
 			par = v
 		}
